@@ -21,7 +21,7 @@ def main():
     for i in ids:
         d = os.path.join(S, i)
         meta = json.load(open(os.path.join(d, 'meta.json')))
-        props = meta.get('detected_by') or [meta['breaks_property']]
+        props = meta.get("detected_by") or [meta["breaks_property"]]
         cmd = ['/venv/bin/python', os.path.join(VERIF, 'tools', 'evalmut.py'), os.path.join(d, 'patch.diff'),
                os.path.join(d, 'demo.py')] + props + ['--notests']
         p = subprocess.run(cmd, capture_output=True, text=True, timeout=3600)
